@@ -206,7 +206,7 @@ def backward_slice(ctx, fi, expr, depth=2, frames=None, _seen=None):
         _seen.add(id(e))
         out.append((frames, e))
         for c in [x for x in ast.walk(e) if isinstance(x, ast.Call)]:
-            if depth > 0 and id(c) not in _seen:
+            if depth > 0 and ("handled", id(c)) not in _seen:
                 for q in call_targets(ctx, fi, c):
                     g = prog.functions.get(q)
                     if g is None or g.is_generator:
@@ -250,7 +250,7 @@ def backward_slice(ctx, fi, expr, depth=2, frames=None, _seen=None):
                                 out += backward_slice(ctx, g, rv, depth - 1, frames + ((g, binding),), _seen)
                                 handled = True
                         if handled:
-                            _seen.add(id(val))
+                            _seen.add(("handled", id(val)))
                             for a in list(val.args) + [k.value for k in val.keywords]:
                                 work.append(a)
                         else:
